@@ -46,9 +46,34 @@ def pool(rng, n):
     return out
 
 
+def twins(rng, k):
+    """the SAME statement texts assembled in 16-bit and in 32-bit mode (sizes and prefixes differ), with labels whose
+    values depend on those sizes: anything remembered per statement text across assemblies shows up in the other mode"""
+    body = []
+    labels = []
+    for j in range(rng.randrange(3, 9)):
+        body.append(GP.safe_instr(rng, rng.choice([16, 32]), []))
+        if rng.random() < 0.6:
+            lab = "tw%d_%d" % (k, j)
+            labels.append(lab)
+            body.append(("label", lab))
+    labels = labels or ["tw%d_end" % k]
+    if labels == ["tw%d_end" % k]:
+        body.append(("label", labels[0]))
+    body.append(("mn", "DD", [A.ident(l) for l in labels]))
+    return body, [("config", "BITS", ("num", 32))] + body
+
+
 def run(v, tier, rng):
     npool = 24 if tier == "quick" else 60
     progs = pool(rng, npool)
+    ntw = 6 if tier == "quick" else 30
+    twin_idx = []
+    for k in range(ntw):
+        a, b = twins(rng, k)
+        twin_idx.append((len(progs), len(progs) + 1))
+        progs += [a, b]
+    npool = len(progs)
     texts = [A.p_program(p) for p in progs]
     # reference: one fresh process per program (the CLI binary)
     work = os.path.join(lib.BUILD, "c10-%d" % os.getpid())
@@ -79,6 +104,11 @@ def run(v, tier, rng):
             c["prefill"] = (bytes(range(256)) * rng.choice([1, 8, 64])).hex()
         cases.append(c)
         hist.append(seq)
+    # the same statement texts in both modes, alternating, in both orders
+    for k, (ia, ib) in enumerate(twin_idx):
+        for o, seq in enumerate(([ia, ib, ia, ib], [ib, ia, ib, ia])):
+            cases.append({"id": "tw%d_%d" % (k, o), "srcs": [texts[i] for i in seq]})
+            hist.append(seq)
     # all orders of a 4-program pool
     import itertools
     for k, perm in enumerate(itertools.permutations(range(4))):
@@ -112,5 +142,5 @@ def run(v, tier, rng):
     if bad and not v.violations:
         v.tie_broken("correspondence model vs gosk (pool programs, whole file)", {"source": texts[bad[0]]})
     v.cov.update({"evaluations": calls, "distinct_nontrivial": nontriv,
-                  "rule": "pool of flat/WCOFF programs in both modes with labels, EQUs, GLOBALs and sums mixing registers and constants; histories = random sequences with repetitions (some with the destination pre-filled with longer content), all orders of a 4-program pool twice, and every program re-assembled three times from one parsed tree, each in one process; every call is compared with the output of a fresh CLI process for that source; non-trivial = histories run",
+                  "rule": "pool of flat/WCOFF programs in both modes with labels, EQUs, GLOBALs and sums mixing registers and constants; pairs of programs made of the same statement texts in 16-bit and 32-bit mode; histories = random sequences with repetitions, the twin programs alternating in both orders (some with the destination pre-filled with longer content), all orders of a 4-program pool twice, and every program re-assembled three times from one parsed tree, each in one process; every call is compared with the output of a fresh CLI process for that source; non-trivial = histories run",
                   "samples": [{"history": hist[0], "first_source": texts[hist[0][0]]}], "pool": npool, "histories": len(cases), "calls": calls, "correspondence_mismatches": len(bad)})
